@@ -38,9 +38,10 @@ func init() {
 		return []*vexplore.Scenario{
 			{Name: "handshake-single-byte-deviation", Mode: "enum", Reset: kit.ResetGlobals, Body: hsDeviation, NeedCounters: []string{"rejected", "good-peer-after"}},
 			{Name: "handshake-truncated-or-stalled", Mode: "enum", Reset: kit.ResetGlobals, Body: hsTruncated, NeedCounters: []string{"truncated", "stalled-does-not-delay-others"}},
-			{Name: "frame-length-field", Mode: "enum", Reset: kit.ResetGlobals, Body: frameLengths, NeedCounters: []string{"too-long-dropped-at-once", "in-limit-delivered", "negative-dropped"}},
+			{Name: "frame-length-field", Mode: "enum", Reset: kit.ResetGlobals, Body: frameLengths, NeedCounters: []string{"too-long-dropped-at-once", "in-limit-delivered", "negative-dropped", "limit-set-after-listen"}},
 			{Name: "frame-truncated-everywhere", Mode: "enum", Reset: kit.ResetGlobals, Body: frameTruncated, NeedCounters: []string{"truncated-nothing-delivered"}},
 			{Name: fmt.Sprintf("protocol-bodies-len<=%d", L), Mode: "enum", Reset: kit.ResetGlobals, Body: func() { protoBodies(L) }, NeedCounters: []string{"hostile-dropped", "hostile-delivered-as-reference", "control-still-served"}},
+			{Name: "replayed-answers", Mode: "enum", Reset: kit.ResetGlobals, Body: replayedAnswers, NeedCounters: []string{"replay-dropped"}},
 			{Name: "stalled-handshake-vs-good-peer", Mode: "sched", Bound: b, Reset: kit.ResetGlobals, Body: stalledVsGood},
 		}
 	})
@@ -271,7 +272,19 @@ func frameLengths() {
 		bodyMode = "short"
 	}
 	lg := ledger.Install()
-	v := open(k, limit)
+	// the limit is in force for connections made after it was set, whether it was set before the
+	// socket started to listen or afterwards (free choice)
+	late := limit >= 0 && kit.ChooseFree(2) == 1
+	var v *srv
+	if late {
+		v = open(k, -1)
+		if err := v.x.S.SetOption(mangos.OptionMaxRecvSize, limit); err != nil {
+			kit.Failf("setup", "MaxRecvSize after Listen: %s", kit.ErrName(err))
+		}
+		kit.Count("limit-set-after-listen")
+	} else {
+		v = open(k, limit)
+	}
 	h := v.goodPeer("hostile")
 	ctl := v.goodPeerIfRoom()
 	var pre8 [8]byte
@@ -677,6 +690,60 @@ func sendSizes() {
 		kit.Failf("stream-bytes-differ", "%s sizes %d,%d,%d: mangos wrote %d bytes, the SP mapping gives %d bytes; first difference at %d", k.Name, sendSz[i], sendSz[j], sendSz[i], len(got), len(want), firstDiff(got, want))
 	}
 	kit.Observe("%s %s %d %d", scheme, k.Name, sendSz[i], sendSz[j])
+	kit.Must("Close", func() { _ = v.x.S.Close() })
+}
+
+// replayedAnswers: a peer of a REQ / SURVEYOR socket answers request 1 properly and later, while
+// request 2 is outstanding, sends the very same frame again (once or twice, and/or the frame of a
+// never-used id).  None of that is delivered: Recv keeps waiting until the answer to request 2
+// arrives, and returns that.
+func replayedAnswers() {
+	pickScheme()
+	k := kinds.ByName([]string{"req", "surveyor"}[kit.ChooseFree(2)])
+	replays := 1 + kit.ChooseFree(2)
+	v := open(k, -1)
+	v.x.Quiet()
+	h := v.goodPeer("replaying")
+	round := func(q string) []byte {
+		before := len(h.Written())
+		c := kit.Start("Send", func() (interface{}, error) { return nil, v.x.S.Send([]byte(q)) })
+		kit.Quiesce()
+		if !c.Done() || c.Err != nil {
+			kit.Failf("setup", "%s: Send done=%v %s", k.Name, c.Done(), kit.ErrName(c.Err))
+		}
+		w := h.Written()[before:]
+		if len(w) < prefixLen()+4 {
+			kit.Failf("setup", "%s: request not written", k.Name)
+		}
+		return append([]byte{}, w[prefixLen():prefixLen()+4]...)
+	}
+	id1 := round("first")
+	f1 := frame(append(append([]byte{}, id1...), "answer-1"...))
+	h.Feed(f1)
+	r1 := kit.Start("Recv1", func() (interface{}, error) { b, err := v.x.S.Recv(); return string(b), err })
+	kit.Quiesce()
+	if !r1.Done() || r1.Err != nil || r1.Val.(string) != "answer-1" {
+		kit.Failf("setup", "%s: first answer: done=%v %s %q", k.Name, r1.Done(), kit.ErrName(r1.Err), r1.Val)
+	}
+	id2 := round("second")
+	for i := 0; i < replays; i++ {
+		h.Feed(f1)
+	}
+	unused := append([]byte{}, id2...)
+	unused[3] += 7
+	h.Feed(frame(append(unused, "to-nobody"...)))
+	r2 := kit.Start("Recv2", func() (interface{}, error) { b, err := v.x.S.Recv(); return string(b), err })
+	kit.Quiesce()
+	if r2.Done() {
+		kit.Failf("replayed-answer-delivered:"+k.Name, "%s over %s: the peer sent the answer to request 1 again (%dx) while request 2 is outstanding: Recv returned %s / %q", k.Name, scheme, replays, kit.ErrName(r2.Err), r2.Val)
+	}
+	kit.Count("replay-dropped")
+	h.Feed(frame(append(append([]byte{}, id2...), "answer-2"...)))
+	kit.Quiesce()
+	if !r2.Done() || r2.Err != nil || r2.Val.(string) != "answer-2" {
+		kit.Failf("answer-after-replay:"+k.Name, "%s: after the replays the genuine answer arrived: Recv done=%v %s %q", k.Name, r2.Done(), kit.ErrName(r2.Err), r2.Val)
+	}
+	kit.Observe("%s %s %d", scheme, k.Name, replays)
 	kit.Must("Close", func() { _ = v.x.S.Close() })
 }
 
